@@ -46,6 +46,15 @@ theorem get?_erase_other (l : List (κ × ν)) (k k2 : κ) (h : k ≠ k2) :
       · subst h2; simp [erase, h1, get?]
       · simp [erase, h1, get?, h2, ih]
 
+theorem erase_erase_same (l : List (κ × ν)) (k : κ) : erase (erase l k) k = erase l k := by
+  induction l with
+  | nil => rfl
+  | cons p rest ih =>
+    obtain ⟨k', v⟩ := p
+    by_cases h : k' = k
+    · simp [erase, h, ih]
+    · simp [erase, h, ih]
+
 @[simp] theorem get?_set_same (l : List (κ × ν)) (k : κ) (v : ν) : get? (set l k v) k = some v := by
   simp [set, get?]
 
